@@ -29,8 +29,8 @@ pub fn bool_op(op: &str) -> BooleanOperator {
 pub trait BoolExt: Kind + BooleanFunction {
     const HAS_QUANT: bool = false;
     const HAS_ZOPS: bool = false;
-    /// set_var_order with live nodes preserves the functions (known finding
-    /// C08/zbdd: level_swap does not implement the zero-suppression rule)
+    /// set_var_order with live nodes preserves the functions (false for ZBDDs
+    /// before the level_swap fix in /repo; kept as a switch for drivers)
     const REORDER_LIVE_OK: bool = true;
     fn quant(&self, _q: &str, _vars: &Self) -> AllocResult<Self> {
         panic!("harness: quant unsupported")
@@ -90,7 +90,7 @@ impl_quant!(BCDDFunction);
 
 impl BoolExt for ZBDDFunction {
     const HAS_ZOPS: bool = true;
-    const REORDER_LIVE_OK: bool = false;
+    const REORDER_LIVE_OK: bool = true;
     fn zvar(&self, op: &str, v: u32) -> AllocResult<Self> {
         match op {
             "subset0" => self.subset0(v),
